@@ -429,9 +429,12 @@ class DifferenceUnits(Contract):
         if it.branch(S.offset(a.unit1) == 0):
             return (1, a.unit1)
         s1, _ = self._s(a)
-        if it.branch(s1 == z3.StringVal("degF")):
-            return (1, it.domain.named_unit(it, "delta_degF"))
-        return (1, it.domain.named_unit(it, "delta_degC"))
+        name = "delta_degF" if it.branch(s1 == z3.StringVal("degF")) else "delta_degC"
+        u = it.domain.named_unit(it, name)
+        if u.fields["registry"] is not a.unit1.fields["registry"]:
+            # the difference unit re-bound to the operands' registry
+            u = SObj(u.cls, dict(u.fields, registry=a.unit1.fields["registry"]), label=name + "_rebound")
+        return (1, u)
 
     def ensures(self, it, a, r, old):
         mul, lab = r
